@@ -254,13 +254,25 @@ class RealRun:
             out.append((reset, "reset"))
             for op in case["ops"]:
                 try:
+                    w0 = len(sim.net.emitted)
                     out.append(self.op(op))
+                    for ad, fr in sim.net.emitted[w0:]:      # frames on the wire (zmq socket seam)
+                        self._tx(fr)
                 except Exception as ex:  # noqa: BLE001 - unexpected exception of the real code = a result
                     out.append(({"op": "noop"}, {"crash": f"{type(ex).__name__}: {ex}"}))
                     self.trace.append(("crash", op.get("ep", 0), f"{type(ex).__name__}: {ex}"))
                     break
             self.final = [self._final(e) for e in sim.eps]
         return out
+
+    def _tx(self, frames):
+        msg = self.sim.msg
+        try:
+            first = pickle.loads(frames[0])
+            if isinstance(first, msg.Syn) and len(frames) > 1:
+                self.trace.append(("tx", self.sim.addr_id(first.addr), repr(pickle.loads(frames[1]))))
+        except Exception:  # noqa: BLE001
+            pass
 
     def _final(self, e):
         exited = bool(e.coro is not None and e.coro.done and e.coro.exc is None
@@ -271,7 +283,7 @@ class RealRun:
         """record what the op just executed at endpoint e did, for the oracle"""
         msg = self.sim.msg
         for host, key in e.sent:
-            self.trace.append(("sent", e.a, self.dst_of.get((e.a, host)), key, host))
+            self.trace.append(("sent", e.a, self.dst_of.get((e.a, host)), key, host, e.loop))
         for host in e.sender.hosts.popped:
             self.trace.append(("popped", e.a, host))
         for m in e.got:
@@ -372,7 +384,7 @@ class RealRun:
         raise ValueError(kind)
 
     def _round(self, e):
-        self.trace.append(("round", e.a, e.sender.resend_grace // 1_000_000))
+        self.trace.append(("round", e.a, e.sender.resend_grace // 1_000_000, e.loop))
 
     def _poll(self, e, w0, start_shutdown=False):
         sim = self.sim
@@ -414,9 +426,11 @@ class RealRun:
         failed = (e.coro.done and e.coro.exc is not None) or any("ExecutorFailure" in key for _, key in e.sent)
         for i, act in enumerate(acts):
             if act[0] == "recvall":
+                # (with several recvall markers in one resume `got` spans them all; that only happens on loop changes)
                 nxt = next((j for j in range(i + 1, len(acts)) if acts[j][0] == "recvall"), len(acts))
                 retried = any(x[0] == "retry" for x in acts[i + 1:nxt])
-                nack = sum(1 for m in e.got if isinstance(m, sim.msg.Ack))
+                dispatched = e.got if len(act) < 3 else e.got[:act[2]]
+                nack = sum(1 for m in dispatched if isinstance(m, sim.msg.Ack))
                 self.loops_seen.append((act[1], retried, nack, e.fed, bool(failed)))
         self._round(e)
         self._events(e)
@@ -434,6 +448,8 @@ def oracle(case, trace, final):
     delivered = {}   # (dst, key) -> count
     local = {}       # (dst, key) -> count
     raised = set()
+    raised_before_tx = set()   # a sender object that is used on after it raised is outside the bound
+    tx = {}
     since_tick = {}
     popped = set()
     for ev in trace:
@@ -441,10 +457,11 @@ def oracle(case, trace, final):
         if k == "crash":
             return ({"kind": "crash"}, f"real code raised unexpectedly: {ev[2]}")
         if k == "sent":
-            _, a, dst, key, host = ev
-            ent = sent.setdefault((dst, key), {"n": 0, "from": a, "host": host, "rounds": 0})
+            _, a, dst, key, host, loop = ev
+            ent = sent.setdefault((dst, key), {"n": 0, "from": a, "host": host, "loop": loop, "rounds": {}})
             ent["n"] += 1
-            ent["rounds"] = 0
+            ent["loop"] = loop
+            ent["rounds"] = {}
         elif k == "local":
             local[(ev[1], ev[2])] = local.get((ev[1], ev[2]), 0) + 1
         elif k == "delivered":
@@ -455,8 +472,16 @@ def oracle(case, trace, final):
                 return ({"kind": "wrong-message"}, f"endpoint {b} was handed {key}, which nobody sent to it")
             if delivered[(b, key)] > allowed:
                 return ({"kind": "duplicate-delivery"}, f"endpoint {b} was handed {key} {delivered[(b, key)]} times, sent {allowed} times")
+        elif k == "tx":
+            _, a, key = ev
+            tx[(a, key)] = tx.get((a, key), 0) + 1
+            nsent = sum(ent["n"] for (d, kk), ent in sent.items() if kk == key and ent["from"] == a)
+            if nsent and tx[(a, key)] > nsent * (maxr + 1) and a not in raised_before_tx:
+                return ({"kind": "too-many-transmissions"},
+                        f"{key} from endpoint {a} was put on the wire {tx[(a, key)]} times, budget is 1 + {maxr} retries per send ({nsent} sends)")
         elif k == "raised":
             raised.add(ev[1])
+            raised_before_tx.add(ev[1])
         elif k == "loop-raised":
             raised.add(ev[1])
         elif k == "popped":
@@ -464,11 +489,11 @@ def oracle(case, trace, final):
         elif k == "tick":
             since_tick[ev[1]] = since_tick.get(ev[1], 0) + ev[2]
         elif k == "round":
-            a, grace = ev[1], ev[2]
+            a, grace, loop = ev[1], ev[2], ev[3]
             if since_tick.get(a, 0) > grace:
                 for ent in sent.values():
                     if ent["from"] == a:
-                        ent["rounds"] += 1
+                        ent["rounds"][loop] = ent["rounds"].get(loop, 0) + 1
             since_tick[a] = 0
     for (dst, key), ent in sorted(sent.items(), key=lambda x: str(x[0])):
         got = delivered.get((dst, key), 0) - local.get((dst, key), 0)
@@ -479,10 +504,12 @@ def oracle(case, trace, final):
         if final[a]["exited"]:
             return ({"kind": "silent-loss", "loop": loop + ":exit"},
                     f"{key} handed to send at endpoint {a} ({loop}) was never delivered to endpoint {dst}; the sender's loop returned without raising")
-        if ent["rounds"] >= maxr + 1:
-            return ({"kind": "silent-loss", "loop": loop},
-                    f"{key} handed to send at endpoint {a} ({loop}) was never delivered to endpoint {dst} and the sender did not raise "
-                    f"although its loop ran {ent['rounds']} iterations, each after more than the resend grace (budget {maxr} retries)")
+        # the loop that was driving the sender when the message was handed over is answerable first
+        for lp in [ent["loop"]] + sorted(l for l in ent["rounds"] if l != ent["loop"]):
+            if ent["rounds"].get(lp, 0) >= maxr + 1:
+                return ({"kind": "silent-loss", "loop": lp},
+                        f"{key} handed to send at endpoint {a} (in {ent['loop']}) was never delivered to endpoint {dst} and the sender did not "
+                        f"raise although {lp} ran {ent['rounds'][lp]} iterations, each after more than the resend grace (budget {maxr} retries)")
     return None
 
 
@@ -506,8 +533,9 @@ def gen_case(rng, tier_big=False):
         hosts0 = []
         for i in range(1, nx + 1):
             hosts0.append([f"h{i}", i])
-        if data:
-            hosts0.append(["data.h1", nx + 1])
+        for i in range(1, nx + 1):
+            # the Bridge keeps a "data.<host>" entry per executor; without a listener there it is never sent to
+            hosts0.append([f"data.h{i}", nx + 1 if (data and i == 1) else 90 + i])
         eps.append({"kind": k0, "grace": GRACE_MS, "hosts": hosts0})
         for i in range(1, nx + 1):
             eps.append({"kind": "executor" if rng.random() < 0.75 else "bare", "grace": GRACE_MS, "hosts": [["controller", 0]]})
@@ -526,7 +554,7 @@ def gen_case(rng, tier_big=False):
         e = eps[a]
         if not e["hosts"]:
             return None
-        host, dst = rng.choice(e["hosts"])
+        host, dst = rng.choice([hd for hd in e["hosts"] if hd[1] < n])
         if rng.random() < 0.04:
             host = "h9" if e["kind"] != "executor" else host   # unknown host -> KeyError
         if style < 0.35:
@@ -686,7 +714,7 @@ def real_rawrecv(case):
         except Exception:  # noqa: BLE001 - pickle.loads failed
             res = ["err", "des"]
         acks = [[sim.addr_id(ad), pickle.loads(fr[0]).idx] for ad, fr in sim.net.net]
-        new = [[y.idx, sim.addr_id(y.addr)] for y in l.acked - before]
+        new = [[y.idx, sim.addr_id(y.addr)] if hasattr(y, "addr") else [y if isinstance(y, int) else -1, -1] for y in l.acked - before]
     return {"res": res, "ack": acks[0] if len(acks) == 1 else (None if not acks else acks),
             "mark": new[0] if len(new) == 1 else (None if not new else new)}
 
@@ -815,8 +843,8 @@ def _report_violation(ctx, case, viol):
 def _real_phase(ctx, with_model=True):
     """runs every case on the real code + oracle; returns the material for the model comparison"""
     from ekw.core import CORPUS_DIR
-    nhist = ctx.budget(260, 9000)
-    nframes = ctx.budget(1500, 40000)
+    nhist = ctx.budget(400, 9000)
+    nframes = ctx.budget(3000, 40000)
     cases = []
     for f in sorted(glob.glob(str(CORPUS_DIR / "C06_*.json"))):
         c = json.load(open(f))
@@ -849,7 +877,7 @@ def _real_phase(ctx, with_model=True):
         fouts.append(o)
         ctx.count("frame-lists")
         ctx.count("frame-result:" + (o["res"][1] if o["res"][0] == "err" else o["res"][0]))
-        ctx.case({"frames": fc}, nontrivial=True)
+        ctx.case({"frames": fc}, nontrivial=(o["res"][0] != "ok"))
         v = frames_oracle(fc, o)
         if v:
             ctx.violation(v[0], {"type": "frames", **fc}, v[1])
